@@ -281,7 +281,7 @@ def al_prefix(A: "Seq[V]", B: "Seq[V]", f: "fn", D: "Seq[E]", k: "int"):
 
 
 @assumed("nbdime.diffing.snakes.compute_snakes_multilevel", properties=["C01"])
-def compute_snakes_multilevel(A: "Seq[V]", B: "Seq[V]", compares: "Seq[fn]", rect: "None", level: "None") -> "Seq[T3]":
+def compute_snakes_multilevel(A: "Seq[V]", B: "Seq[V]", compares: "Seq[fn]", rect: "None" = None, level: "None" = None) -> "Seq[T3]":
     # ASSUMED (checked only at run time by the bounded stand-ins): the multilevel refinement returns runs (i, j, n), n >= 1,
     # inside the two lists, strictly monotone and non-overlapping.  Which items it aligns is irrelevant to the round trip.
     ensures(all(result[q][2] >= 1 and 0 <= result[q][0] and result[q][0] + result[q][2] <= len(A) and
